@@ -8,6 +8,9 @@ package webdoc
 // elemsKept: the element list only grows by appending (nothing removed, replaced or reordered).
 
 //@ func (*WebDocumentBuilder).flushBlock(group)
+//@   assigns webdoc.WebDocumentBuilder.*, webdoc.TextBuilder.*, webdoc.Document.Elements, builder
+//@   assigns_rows db.document.Elements, db.textBuilder.textNodes, db.actionStack
+//@   fresh_assigns webdoc.Text.*, webdoc.BaseElement.*, webdoc.Table.*, webdoc.ElementAction.*, maps, elems(string), elems(ref), cell(Ref), cell(Slice)
 //@   requires wfBuilder(db)
 //@   ensures wfBuilder(db) && db.document == old(db.document) && db.textBuilder == old(db.textBuilder) && db.pageURL == old(db.pageURL) && db.actionStack == old(db.actionStack)
 //@   ensures [C06] #text-carries-page-url implies(len(db.document.Elements) > old(len(db.document.Elements)),
@@ -15,10 +18,15 @@ package webdoc
 //@              as(db.document.Elements[len(db.document.Elements)-1], *Text).PageURL == db.pageURL)
 //@   ensures [C02] #append-only len(db.document.Elements) >= old(len(db.document.Elements)) && len(db.document.Elements) <= old(len(db.document.Elements)) + 1 &&
 //@              forall(i, 0 <= i && i < old(len(db.document.Elements)), db.document.Elements[i] == old(db.document.Elements[i]))
-//@   ensures [C02] #pending-window-consumed db.textBuilder.firstNode == len(db.textBuilder.textNodes) && len(db.textBuilder.textNodes) == old(len(db.textBuilder.textNodes))
+//@   ensures samerow(db.document.Elements, old(db.document.Elements)) || freshslice(db.document.Elements)
+//@   ensures [C02] #pending-window-consumed db.textBuilder.firstNode == len(db.textBuilder.textNodes) && db.textBuilder.textNodes == old(db.textBuilder.textNodes)
 //@   ensures forall(i, 0 <= i && i < len(db.textBuilder.textNodes), db.textBuilder.textNodes[i] == old(db.textBuilder.textNodes[i]))
 
 //@ func (*WebDocumentBuilder).addText(text)
+//@   assigns webdoc.Document.Elements
+//@   assigns_rows db.document.Elements
+//@   fresh_assigns webdoc.Text.*, webdoc.BaseElement.*, webdoc.ElementAction.*, maps, elems(ref), cell(Ref), cell(Slice)
+//@   ensures samerow(db.document.Elements, old(db.document.Elements)) || freshslice(db.document.Elements)
 //@   requires db != nil && db.document != nil && db.textBuilder != nil && inheap(db.document.Elements) && inheap(db.actionStack) && inheap(db.textBuilder.textNodes) && disjoint(db.textBuilder.textNodes, db.document.Elements)
 //@   ensures [C02] #appends-one len(db.document.Elements) == old(len(db.document.Elements)) + 1 &&
 //@              forall(i, 0 <= i && i < old(len(db.document.Elements)), db.document.Elements[i] == old(db.document.Elements[i]))
@@ -29,6 +37,9 @@ package webdoc
 //@   ensures forall(i, 0 <= i && i < len(db.textBuilder.textNodes), db.textBuilder.textNodes[i] == old(db.textBuilder.textNodes[i]))
 
 //@ func (*WebDocumentBuilder).AddDataTable(table)
+//@   assigns webdoc.WebDocumentBuilder.*, webdoc.TextBuilder.*, webdoc.Document.Elements, builder
+//@   assigns_rows db.document.Elements, db.textBuilder.textNodes, db.actionStack
+//@   fresh_assigns webdoc.Text.*, webdoc.BaseElement.*, webdoc.Table.*, webdoc.ElementAction.*, maps, elems(string), elems(ref), cell(Ref), cell(Slice)
 //@   requires wfBuilder(db)
 //@   ensures wfBuilder(db)
 //@   ensures [C06] #table-carries-page-url typeis(db.document.Elements[len(db.document.Elements)-1], *Table) &&
@@ -36,40 +47,64 @@ package webdoc
 //@              as(db.document.Elements[len(db.document.Elements)-1], *Table).Element == table
 
 //@ func (*WebDocumentBuilder).SkipNode(e)
+//@   assigns webdoc.WebDocumentBuilder.*, webdoc.TextBuilder.*, webdoc.Document.Elements, builder
+//@   assigns_rows db.document.Elements, db.textBuilder.textNodes, db.actionStack
+//@   fresh_assigns webdoc.Text.*, webdoc.BaseElement.*, webdoc.Table.*, webdoc.ElementAction.*, maps, elems(string), elems(ref), cell(Ref), cell(Slice)
 //@   requires wfBuilder(db)
 //@   ensures wfBuilder(db) && db.flush
 
 //@ func (*WebDocumentBuilder).StartNode(e)
+//@   assigns webdoc.WebDocumentBuilder.*, webdoc.TextBuilder.*, webdoc.Document.Elements, builder
+//@   assigns_rows db.document.Elements, db.textBuilder.textNodes, db.actionStack
+//@   fresh_assigns webdoc.Text.*, webdoc.BaseElement.*, webdoc.Table.*, webdoc.ElementAction.*, maps, elems(string), elems(ref), cell(Ref), cell(Slice)
 //@   requires wfBuilder(db) && e != nil
 //@   ensures wfBuilder(db)
 //@   ensures [C03] #start-never-flushes len(db.document.Elements) == old(len(db.document.Elements)) && len(db.actionStack) == old(len(db.actionStack)) + 1
 
 //@ func (*WebDocumentBuilder).EndNode()
+//@   assigns webdoc.WebDocumentBuilder.*, webdoc.TextBuilder.*, webdoc.Document.Elements, builder
+//@   assigns_rows db.document.Elements, db.textBuilder.textNodes, db.actionStack
+//@   fresh_assigns webdoc.Text.*, webdoc.BaseElement.*, webdoc.Table.*, webdoc.ElementAction.*, maps, elems(string), elems(ref), cell(Ref), cell(Slice)
 //@   requires wfBuilder(db)
 //@   ensures wfBuilder(db)
 //@   ensures [C01] #pop-is-guarded len(db.actionStack) == old(len(db.actionStack)) - 1 || (old(len(db.actionStack)) == 0 && len(db.actionStack) == 0)
 
 //@ func (*WebDocumentBuilder).AddTextNode(textNode)
+//@   assigns webdoc.WebDocumentBuilder.*, webdoc.TextBuilder.*, webdoc.Document.Elements, builder
+//@   assigns_rows db.document.Elements, db.textBuilder.textNodes, db.actionStack
+//@   fresh_assigns webdoc.Text.*, webdoc.BaseElement.*, webdoc.Table.*, webdoc.ElementAction.*, maps, elems(string), elems(ref), cell(Ref), cell(Slice)
 //@   requires wfBuilder(db) && wfNode(textNode) && inTreeOf(db.textBuilder, textNode)
 //@   ensures wfBuilder(db)
 //@   ensures [C03] #flush-only-if-pending implies(!old(db.flush), len(db.document.Elements) == old(len(db.document.Elements)))
 
 //@ func (*WebDocumentBuilder).AddLineBreak(br)
+//@   assigns webdoc.WebDocumentBuilder.*, webdoc.TextBuilder.*, webdoc.Document.Elements, builder
+//@   assigns_rows db.document.Elements, db.textBuilder.textNodes, db.actionStack
+//@   fresh_assigns webdoc.Text.*, webdoc.BaseElement.*, webdoc.Table.*, webdoc.ElementAction.*, maps, elems(string), elems(ref), cell(Ref), cell(Slice)
 //@   requires wfBuilder(db) && wfNode(br) && inTreeOf(db.textBuilder, br)
 //@   ensures wfBuilder(db)
 //@   ensures [C03] #flush-only-if-pending implies(!old(db.flush), len(db.document.Elements) == old(len(db.document.Elements)))
 
 //@ func (*WebDocumentBuilder).AddTag(tag)
+//@   assigns webdoc.WebDocumentBuilder.*, webdoc.TextBuilder.*, webdoc.Document.Elements, builder
+//@   assigns_rows db.document.Elements, db.textBuilder.textNodes, db.actionStack
+//@   fresh_assigns webdoc.Text.*, webdoc.BaseElement.*, webdoc.Table.*, webdoc.ElementAction.*, maps, elems(string), elems(ref), cell(Ref), cell(Slice)
 //@   requires wfBuilder(db) && tag != nil
 //@   ensures wfBuilder(db)
 //@   ensures [C07] #tag-appended len(db.document.Elements) >= 1 && db.document.Elements[len(db.document.Elements)-1] == tag
 
 //@ func (*WebDocumentBuilder).AddEmbed(embed)
+//@   assigns webdoc.WebDocumentBuilder.*, webdoc.TextBuilder.*, webdoc.Document.Elements, builder
+//@   assigns_rows db.document.Elements, db.textBuilder.textNodes, db.actionStack
+//@   fresh_assigns webdoc.Text.*, webdoc.BaseElement.*, webdoc.Table.*, webdoc.ElementAction.*, maps, elems(string), elems(ref), cell(Ref), cell(Slice)
 //@   requires wfBuilder(db) && embed != nil
 //@   ensures wfBuilder(db)
 //@   ensures len(db.document.Elements) >= 1 && db.document.Elements[len(db.document.Elements)-1] == embed
 
 //@ func (*WebDocumentBuilder).Build()
+//@   assigns webdoc.WebDocumentBuilder.*, webdoc.TextBuilder.*, webdoc.Document.Elements, builder
+//@   assigns_rows db.document.Elements, db.textBuilder.textNodes, db.actionStack
+//@   fresh_assigns webdoc.Text.*, webdoc.BaseElement.*, webdoc.Table.*, webdoc.ElementAction.*, maps, elems(string), elems(ref), cell(Ref), cell(Slice)
 //@   requires wfBuilder(db)
 //@   ensures result == db.document && result != nil
 
@@ -83,24 +118,34 @@ package webdoc
 // ---- TextBuilder (C02: each text node goes to exactly one Text; C01: index safety) ----
 
 //@ func (*TextBuilder).AddTextNode(textNode, tagLevel)
+//@   assigns webdoc.TextBuilder.*, builder
+//@   assigns_rows tb.textNodes
+//@   fresh_assigns webdoc.Text.*, webdoc.BaseElement.*, elems(ref)
 //@   requires wfTB(tb) && wfNode(textNode) && inTreeOf(tb, textNode)
 //@   ensures wfTB(tb) && tb.firstNode == old(tb.firstNode) && (samerow(tb.textNodes, old(tb.textNodes)) || freshslice(tb.textNodes))
 //@   ensures [C02] #appends-the-node-or-nothing (len(tb.textNodes) == old(len(tb.textNodes)) || (len(tb.textNodes) == old(len(tb.textNodes)) + 1 && tb.textNodes[len(tb.textNodes)-1] == textNode))
 //@   ensures [C02] #prefix-unchanged forall(i, 0 <= i && i < old(len(tb.textNodes)), tb.textNodes[i] == old(tb.textNodes[i]))
 
 //@ func (*TextBuilder).AddLineBreak(node)
+//@   assigns webdoc.TextBuilder.*, builder
+//@   assigns_rows tb.textNodes
+//@   fresh_assigns webdoc.Text.*, webdoc.BaseElement.*, elems(ref)
 //@   requires wfTB(tb) && wfNode(node) && inTreeOf(tb, node)
 //@   ensures wfTB(tb) && tb.firstNode == old(tb.firstNode) && len(tb.textNodes) == old(len(tb.textNodes)) + 1 && tb.textNodes[len(tb.textNodes)-1] == node && (samerow(tb.textNodes, old(tb.textNodes)) || freshslice(tb.textNodes))
 //@   ensures [C02] #prefix-unchanged forall(i, 0 <= i && i < old(len(tb.textNodes)), tb.textNodes[i] == old(tb.textNodes[i]))
 
 //@ func (*TextBuilder).Reset()
+//@   assigns webdoc.TextBuilder.*, builder
+//@   fresh_assigns webdoc.Text.*, webdoc.BaseElement.*, elems(ref)
 //@   requires wfTB(tb)
-//@   ensures wfTB(tb) && tb.firstNode == len(tb.textNodes) && len(tb.textNodes) == old(len(tb.textNodes))
+//@   ensures wfTB(tb) && tb.firstNode == len(tb.textNodes) && tb.textNodes == old(tb.textNodes) && tb.wordCounter == old(tb.wordCounter)
 //@   ensures forall(i, 0 <= i && i < len(tb.textNodes), tb.textNodes[i] == old(tb.textNodes[i]))
 
 //@ func (*TextBuilder).Build(offsetBlock)
+//@   assigns webdoc.TextBuilder.*, builder
+//@   fresh_assigns webdoc.Text.*, webdoc.BaseElement.*, elems(ref)
 //@   requires wfTB(tb)
-//@   ensures wfTB(tb) && len(tb.textNodes) == old(len(tb.textNodes))
+//@   ensures wfTB(tb) && tb.textNodes == old(tb.textNodes) && tb.wordCounter == old(tb.wordCounter)
 //@   ensures [C02] #window-consumed tb.firstNode == len(tb.textNodes)
 //@   ensures [C01,C02] #window result == nil || (fresh(result) && wfText(result) && result.Start == old(tb.firstNode) && result.End == len(tb.textNodes))
 //@   ensures forall(i, 0 <= i && i < len(tb.textNodes), tb.textNodes[i] == old(tb.textNodes[i]))
